@@ -7,6 +7,7 @@ package main
 
 import (
 	"bytes"
+	"crypto/sha256"
 	"encoding/json"
 	"flag"
 	"fmt"
@@ -98,6 +99,10 @@ func observe(text string) any {
 	w.Close()
 	out := <-done
 	r.Close()
+	if strings.HasPrefix(text, symtabProbe) {
+		// every (symnum (quote NAME)) at once: the whole name->number table after the evaluation
+		out += symtabDigest(env)
+	}
 	switch o.Kind {
 	case "val":
 		return []any{"val", addrRe.ReplaceAllString(o.Val.SexpString(nil), "0xADDR"), trunc(out, 2000)}
@@ -105,6 +110,30 @@ func observe(text string) any {
 		return []any{"err", maskErr(o.Err), trunc(out, 2000)}
 	}
 	return []any{o.Kind, maskErr(o.Err), trunc(out, 2000)}
+}
+
+const symtabProbe = ";;symtab\n"
+
+func symtabDigest(env *zygo.Zlisp) string {
+	tab := env.VerifSymtab()
+	names := make([]string, 0, len(tab))
+	for n := range tab {
+		names = append(names, n)
+	}
+	sort.Strings(names)
+	h := sha256.New()
+	for _, n := range names {
+		fmt.Fprintf(h, "%s=%d;", n, tab[n])
+	}
+	// the digest, and in clear the numbers of the names that are not functions of the builtin table
+	// (type names, names interned by set-up code), which is where an ordering slip shows
+	var clear []string
+	for _, n := range names {
+		if strings.ContainsAny(n, ".*") || (len(n) > 0 && n[0] >= 'A' && n[0] <= 'Z') {
+			clear = append(clear, fmt.Sprintf("%s=%d", n, tab[n]))
+		}
+	}
+	return fmt.Sprintf("symtab n=%d next=%d sha=%x %s", len(names), env.VerifNextSymbol(), h.Sum(nil)[:8], trunc(strings.Join(clear, " "), 1200))
 }
 
 // pollute: other interpreters created and used earlier in the process
@@ -141,6 +170,9 @@ var determFixed = []string{
 	"(def s (snoopy chld: (hellcat speed: 567)))\n(togo s)\n(str s)\n",
 	"(struct DetA [(field X: int64) (field Y: string) (field Z: float64)])\n(def a (DetA X: 1 Y: \"y\" Z: 2.5))\n(str a)\n(json a)\n(str (unjson (json a)))\n",
 	"(symnum (quote car))\n",
+	symtabProbe + "1\n",
+	symtabProbe + "(def brandNewA 1)\n(gensym)\n(struct SymT [(field A: int64)])\n",
+	"(list (symnum (quote time.Time)) (symnum (quote int64)) (symnum (quote string)) (symnum (quote snoopy)) (symnum (quote Snoopy)) (symnum (quote hash)))\n",
 	"(symnum (quote brandNewSymbolNeverSeen))\n",
 	"(str (gensym))\n",
 	"(def pt (* snoopy))\n(str pt)\n",
